@@ -131,3 +131,19 @@ def boundary_sources():
         out.append((f"gen/negimpl_{n}", f"unsafe impl<T: {a}> !Send for Wrapper<T> {{}}\nimpl<'a, T: ?Sized + {a}> !Sync for &'a mut T where T: Clone {{}}\n"))
         out.append((f"gen/quals_{n}", f"pub(crate) const unsafe extern \"C\" fn {a}<'a, T>(x: &'a mut T) -> impl Iterator<Item = &'a T> + 'a {{}}\npub async unsafe fn g{a}(self: Pin<&mut Self>) {{}}\n"))
     return out
+
+
+def kindmix_sources():
+    """Constructs whose element ORDER is decided by a comparator under an option: every
+    sequence of length 2..4 over the element kinds, so that every ordered pair of kinds meets
+    in both orders and next to every third kind.  -> (name, text, opts)"""
+    import itertools
+    out = []
+    kinds = {"T": "type T{i} = u8;", "C": "const C{i}: u8 = 0;", "F": "fn f{i}() {{}}",
+             "M": "mac{i}!(x);"}
+    for n in (2, 3, 4):
+        for seq in itertools.product("TCFM", repeat=n):
+            body = "\n".join("    " + kinds[k].format(i=i) for i, k in enumerate(seq))
+            out.append((f"gen/implmix_{''.join(seq)}", f"impl S {{\n{body}\n}}\n",
+                        {"reorder_impl_items": True}))
+    return out
